@@ -38,6 +38,24 @@ def main(run):
         g = core.Gen(run.rng, max_stmts=140, max_depth=2)
         g.long_main = True
         progs.append(g.program())
+    corpus = c01.load_corpus("C02") + c01.load_corpus("C01")
+    run.extra["corpus_programs"] = len(corpus)
+    progs = corpus + progs
+    nshrunk = [0]
+    def differs(p):
+        nshrunk[0] += 1
+        a = c01.compile_run_all([p], work, "native", "sn%d_" % nshrunk[0])[0]
+        b = c01.compile_run_all([p], work, "wasm", "sw%d_" % nshrunk[0])[0]
+        if a["panic"] or b["panic"] or not (a["accepted"] and b["accepted"]): return False
+        return term_kind(a) != term_kind(b) or values(a.get("out", "")) != values(b.get("out", ""))
+    nviol = [0]
+    def shrunk(p):
+        nviol[0] += 1
+        if nviol[0] > 2: return None
+        try:
+            return core.to_ferret(core.shrink(p, differs, max_tests=60))
+        except Exception as e:
+            return "(shrinking failed: %r)" % (e,)
     nat = c01.compile_run_all(progs, work, "native", "n")
     was = c01.compile_run_all(progs, work, "wasm", "w")
     both = 0
@@ -64,7 +82,8 @@ def main(run):
             key = "prog:" + hashlib.sha256(src.encode()).hexdigest()[:16]
             run.violation(key, "native and wasm differ: termination %s/%s, %d/%d values" % (ka, kb, len(va), len(vb)),
                           {"program": src, "native": {"rc": a.get("rc"), "stdout": a.get("out"), "stderr": a.get("err", "")[:500]},
-                           "wasm": {"rc": b.get("rc"), "stdout": b.get("out"), "stderr": b.get("err", "")[:500]}})
+                           "wasm": {"rc": b.get("rc"), "stdout": b.get("out"), "stderr": b.get("err", "")[:500]},
+                           "shrunk_program": shrunk(p)})
     run.extra["accepted_by_both"] = both
     for k, v in feats.items():
         run.dist[k] = v
